@@ -314,6 +314,11 @@ class Harness(ctl.Session):
 
 def gen_case(rnd, edge=False):
     cmds = c01.gen_session(rnd, max_cmds=5)
+    for c in cmds:
+        # the open C01 finding (get_info_incremental drops lines that are 'OK') is C01's business:
+        # such replies go through the plain per-line API here
+        if c.get("api") == "incremental" and c01.input_class([c]) == "incremental+line-is-OK":
+            c.pop("api")
     ncmd = len(cmds)
     # a few commands are submitted from inside listener callbacks
     for k in range(rnd.choice([0, 0, 1, 2])):
